@@ -120,9 +120,7 @@ theorem compile_preserves_run (env : Env) (file : AFile) (n0 : Nat) (G : List St
   -- the Go `main` wrapper
   have hmainMem : mainFn ∈ (goFilePreSt env file n0).1.funcs := by
     rw [funcs_goFilePre]; simp
-  have hnd : ((goFilePreSt env file n0).1.funcs.map (·.name)).Nodup := by
-    simp only [closedOK, fileOK, Bool.and_eq_true] at hG
-    exact of_decide_eq_true hG.1.1.1.1.1.1.1.1
+  have hnd : ((goFilePreSt env file n0).1.funcs.map (·.name)).Nodup := closed_funcs_nodup hG
   have hmainFind : (goFilePreSt env file n0).1.findFunc "main" = some mainFn := by
     have := find?_of_nodup (fun g : GFunc => g.name) _ hnd _ hmainMem
     simpa [GFile.findFunc, mainFn] using this
@@ -352,12 +350,23 @@ example : InGoFragment {} exFileR 0 exBump ∧ InGoFragment {} exFileR 0 exMainR
 example : (Sem.run 200 (progOf exFileR)).status = "ok" ∧ (Sem.run 200 (progOf exFileR)).out = "42\n" := by
   decide +kernel
 
-/-- a function that builds a tuple is outside the fragment (the model still compiles it: the tie
-    covers it, the theorem does not) -/
+/-- tuples are inside: `fn pair(a) { (a, "x") }`, `fn fst(p) { p.0 }` (the Go struct of a tuple is named after its
+    component types; the emitted file declares it) -/
+private def tPair : Ty := .tuple [t32, .string]
 private def exTuple : AFn :=
-  { name := "pair", params := [("a/0", t32)], ret := .tuple [t32, t32],
-    body := .ret (.tuple [.var "a/0" t32, .var "a/0" t32] (.tuple [t32, t32])) }
-example : ¬ InGoFragment {} [exTuple] 0 exTuple := by unfold InGoFragment; decide +kernel
+  { name := "pair", params := [("a/0", t32)], ret := tPair,
+    body := .ret (.tuple [.var "a/0" t32, .prim (.str "x") .string] tPair) }
+private def exFst : AFn :=
+  { name := "fst", params := [("p/0", tPair)], ret := t32, body := .ret (.proj (.var "p/0" tPair) 0 t32) }
+example : InGoFragment {} [exTuple, exFst] 0 exTuple ∧ InGoFragment {} [exTuple, exFst] 0 exFst := by
+  constructor <;> (unfold InGoFragment; decide +kernel)
+
+/-- a function that builds an array is outside the fragment (the model still compiles it: the tie
+    covers it, the theorem does not) -/
+private def exArray : AFn :=
+  { name := "arr", params := [("a/0", t32)], ret := .array 2 t32,
+    body := .ret (.array [.var "a/0" t32, .var "a/0" t32] (.array 2 t32)) }
+example : ¬ InGoFragment {} [exArray] 0 exArray := by unfold InGoFragment; decide +kernel
 end Examples
 
 end Goml.GoCompileProps
